@@ -98,11 +98,11 @@ def attach_all(inst, d, builder="disjunctive", order=OBSERVER_ORDER, skip=(), no
 def snap_observer(name, obs):
     if name in _env.OBSERVER_TYPES:
         s = [snap_features(obs)]
-        if name == "earliest_start_time":
-            s.append(arr(obs.earliest_start_times))
-        if name == "is_completed":
-            s.append(arr(obs.remaining_ops_per_machine))
-            s.append(arr(obs.remaining_ops_per_job))
+        # documented auxiliary attributes, when the observer has them
+        for extra in ("earliest_start_times", "remaining_ops_per_machine", "remaining_ops_per_job"):
+            val = getattr(obs, extra, None)
+            if val is not None:
+                s.append((extra, arr(val)))
         return tuple(s)
     if name == "composite":
         return (
@@ -110,7 +110,7 @@ def snap_observer(name, obs):
             tuple(sorted((ft.value, tuple(cols)) for ft, cols in obs.column_names.items())),
         )
     if name == "makespan_reward":
-        return (tuple(obs.rewards), obs.current_makespan, obs.last_reward)
+        return (tuple(obs.rewards), getattr(obs, "current_makespan", None), obs.last_reward)
     if name == "idle_reward":
         return (tuple(obs.rewards), obs.last_reward)
     if name == "history":
